@@ -198,6 +198,22 @@ impl Scenario for Chain {
                     continue;
                 }
             }
+            // ... an item that is not JSONB at all handed to a builder after at least one good item (the call is refused
+            // part-way through its items) ...
+            if let Op::BuildArray { items } = &op {
+                if items.len() >= 2 && items[0] != items[items.len() - 1] && r.chance(ocfg.fail_pct, 100) {
+                    let bad = Some((items[items.len() - 1], r.pick(crate::scen_batch::BAD_ITEMS).to_vec()));
+                    steps.push(ChainStep { op, dst: vec![], text_regs: vec![], bad_text: bad, warm: 0 });
+                    continue;
+                }
+            }
+            if let Op::BuildObject { items } = &op {
+                if items.len() >= 2 && items[0].1 != items[items.len() - 1].1 && r.chance(ocfg.fail_pct, 100) {
+                    let bad = Some((items[items.len() - 1].1, r.pick(crate::scen_batch::BAD_ITEMS).to_vec()));
+                    steps.push(ChainStep { op, dst: vec![], text_regs: vec![], bad_text: bad, warm: 0 });
+                    continue;
+                }
+            }
             // ... and a damaged JSONB row handed to a path selection (its stored bytes cut short): the selection fails
             // part-way through the document, on a selector that is kept for the rows after it
             if let Op::Select { v, api, .. } = &op {
